@@ -1,6 +1,6 @@
 package main
 
-// Rules of C05 added after the rounds of independently authored breaking changes (DESIGN 11.6, 11.7).
+// C05.I1: URLs are compared by their text, never by pointer or shallow struct equality (idempotent add).
 
 import (
 	"go/token"
@@ -9,8 +9,18 @@ import (
 	"golang.org/x/tools/go/ssa"
 )
 
+// c05AddsTarget: f appends to Route.Targets of an existing route (Route.addTarget today).
+func c05AddsTarget(f *ssa.Function) bool {
+	hit := false
+	eachInstr(f, func(i ssa.Instruction) {
+		if isStore, removal := c05TargetsStore(i); isStore && !removal {
+			hit = true
+		}
+	})
+	return hit
+}
+
 func runC05I1(c *Ctx) {
-	n := 0
 	isURL := func(t types.Type) bool { return namedIs(t, "url.URL") }
 	for _, f := range c.AllFns {
 		if rootPkg(f) != c.spkg("route") {
@@ -25,32 +35,42 @@ func runC05I1(c *Ctx) {
 				return
 			}
 			if isURL(b.X.Type()) || isURL(b.Y.Type()) {
-				n++
 				c.check("C05.I1", fnKey(f)+"|URL compared by value", b.Pos(), false,
 					"comparing url.URL values (or pointers) with == compares the User *Userinfo pointer, not the credentials: two parses of the same text with a userinfo part never compare equal, so 'route add' is no longer idempotent (duplicate targets accumulate) and 'route del <svc> <src> <dst>' removes nothing — compare URL.String()")
 			}
 		})
 	}
-	// the idiom that must exist: de-duplication / deletion compare URL.String() results
-	okText := 0
-	for _, name := range []string{"addTarget"} {
-		f := c.method("route", "Route", name)
-		if f == nil {
-			continue
+	// the idiom that must exist: where a target is added to a route (the function that appends to Route.Targets, its
+	// helpers and closures), an existing target is recognised by comparing URL.String() of both URLs
+	var adders []*ssa.Function
+	seen := map[*ssa.Function]bool{}
+	for _, f := range c.fnsWhere("route", c05AddsTarget) {
+		if top := c05TopFn(f); !seen[top] {
+			seen[top] = true
+			adders = append(adders, top)
 		}
-		eachInstr(f, func(i ssa.Instruction) {
+	}
+	c.atLeast("C05.I1", "functions that append a target to Route.Targets", len(adders), 1)
+	isText := func(v ssa.Value) bool {
+		_, ok := isCallTo(v, "(*net/url.URL).String")
+		return ok
+	}
+	for _, a := range adders {
+		okText := 0
+		// the function that appends, its helpers, and - when the append itself sits in a small helper - its callers
+		search := []*ssa.Function{a}
+		for _, s := range c05Sites(a) {
+			search = append(search, c05TopFn(s.Parent()))
+		}
+		eachInstrOf(c.region(search...), func(_ *ssa.Function, i ssa.Instruction) {
 			b, ok := i.(*ssa.BinOp)
-			if !ok || b.Op != token.EQL {
+			if !ok || (b.Op != token.EQL && b.Op != token.NEQ) || !isStringType(b.X.Type()) {
 				return
 			}
-			_, x := isCallTo(b.X, "(*net/url.URL).String")
-			_, y := isCallTo(b.Y, "(*net/url.URL).String")
-			if x && y {
+			if derives(b.X, isText) && derives(b.Y, isText) {
 				okText++
 			}
 		})
+		c.check("C05.I1", fnKey(a)+"|targets de-duplicated by URL text", a.Pos(), okText >= 1, "adding a target must recognise an existing target by comparing URL.String() of both URLs (idempotent add)")
 	}
-	c.check("C05.I1", "route.(*Route).addTarget|targets de-duplicated by URL text", token.NoPos, okText >= 1, "addTarget must recognise an existing target by comparing URL.String() of both URLs (idempotent add)")
 }
-
-// ---- C07.W1 (all paths): wrapper methods forward on every path ------------------------------------------
